@@ -138,7 +138,18 @@ impl Check for C03 {
         let adhoc_only = s.chance(1, 4);
         let mut case = C03Case { typed: None, adhoc: vec![], extras: vec![] };
         if !adhoc_only {
-            case.typed = Some(gen_typed_case(s, &GenCfg::default(), RenderCfg::all(), Mode::Open, 2, (8, 6, 5)));
+            let mut t = gen_typed_case(s, &GenCfg::default(), RenderCfg::all(), Mode::Open, 2, (8, 6, 5));
+            // sparse arrays (an element replaced by an empty slot)
+            for vs in t.values.iter_mut() {
+                let mut extra = vec![];
+                for (v, _) in vs.iter().filter(|(_, l)| l == "member").take(2) {
+                    if let Some(h) = crate::jsval::punch_hole(v, s) {
+                        extra.push((h, "near".to_string()));
+                    }
+                }
+                vs.extend(extra);
+            }
+            case.typed = Some(t);
         }
         if let Some(t) = &case.typed {
             for (i, _) in t.roots.iter().enumerate() {
@@ -529,7 +540,18 @@ impl Check for C12 {
     }
     fn generate(&self, s: &mut Src, _tier: Tier) -> Value {
         let cfg = GenCfg { object_bias: 2, ..GenCfg::default() };
-        let case = gen_typed_case(s, &cfg, RenderCfg::all(), Mode::Open, 2, (4, 14, 4));
+        let mut case = gen_typed_case(s, &cfg, RenderCfg::all(), Mode::Open, 2, (4, 14, 4));
+        // sparse arrays: a member with one array element replaced by an empty slot (reads as undefined, is skipped by
+        // forEach / map / flatMap)
+        for vs in case.values.iter_mut() {
+            let mut extra = vec![];
+            for (v, _) in vs.iter().filter(|(_, l)| l == "member").take(3) {
+                if let Some(h) = crate::jsval::punch_hole(v, s) {
+                    extra.push((h, "near".to_string()));
+                }
+            }
+            vs.extend(extra);
+        }
         serde_json::to_value(case).unwrap()
     }
     fn exec(&self, case: &Value, ctx: &mut Ctx) -> Outcome {
@@ -553,6 +575,9 @@ impl Check for C12 {
         let mut meta = vec![];
         for (i, (name, _)) in case.roots.iter().enumerate() {
             for (v, _) in &case.values[i] {
+                if v.has_hole() {
+                    out.label("value:sparse_array");
+                }
                 for o in [Value::Null, json!({"strict": true})] {
                     queries.push(json!({"q":"errors","parser":name,"value":v.to_tagged(),"opts":o}));
                     meta.push((name.clone(), v, o));
